@@ -171,14 +171,26 @@ theorem durOfSeconds_eq (u : UInt32) : durOfSeconds u = (u.toNat : Int) * second
   unfold durOfSeconds wrap64 second
   omega
 
-/-- the configured maximum is what the operator wrote, as long as |seconds|·10⁹ fits int64 -/
+/-- the configured maximum is what the operator wrote (6 h when it is ≤ 0), limited to ten years — as long as
+    |seconds|·10⁹ fits int64 -/
 theorem initMaxTtl_eq (c : Int) (h1 : -9223372037 < c) (h2 : c < 9223372037) :
-    initMaxTtl c = if c ≤ 0 then defaultMaxCacheTtl else c * second := by
+    initMaxTtl c = if c ≤ 0 then defaultMaxCacheTtl else if c * second > maxCacheTtlLimit then maxCacheTtlLimit else c * second := by
   unfold initMaxTtl
   rw [wrap64_id _ (by unfold second; omega) (by unfold second; omega)]
-  unfold defaultMaxCacheTtl second
+  unfold defaultMaxCacheTtl maxCacheTtlLimit second
   simp only
-  split <;> split <;> omega
+  split <;> split <;> (try split) <;> omega
+
+/-- bounds of the maximum: at least a second, at most ten years, at most what was configured -/
+theorem initMaxTtl_bounds (c : Int) (h1 : -9223372037 < c) (h2 : c < 9223372037) :
+    second ≤ initMaxTtl c ∧ initMaxTtl c ≤ 315360000 * second ∧ initMaxTtl c % second = 0 ∧
+    (c ≤ 0 → initMaxTtl c = 21600 * second) ∧ (0 < c → initMaxTtl c ≤ c * second) ∧
+    (0 < c → initMaxTtl c = c * second ∨ initMaxTtl c = 315360000 * second) := by
+  rw [initMaxTtl_eq c h1 h2]
+  unfold defaultMaxCacheTtl maxCacheTtlLimit second
+  split
+  · omega
+  · split <;> omega
 
 /-! ### the lifetime switch, the floor and the cap -/
 
